@@ -231,6 +231,8 @@ def normalise_filter(events):
                 names.update(s["name"] for s in e["samples"])
             elif e["ev"] == "CftReaders" and e.get("field") == "name":
                 names.add(e["params"][0])
+                if e.get("params2"):
+                    names.add(e["params2"][0])
         rank = {s: n for n, s in enumerate(sorted(names, key=lambda x: x.encode()))}
         field = None
         for e in chunk:
@@ -241,8 +243,10 @@ def normalise_filter(events):
             elif ev == "CftReaders":
                 field = e["field"]
                 p = e["params"][0]
+                p2 = e["params2"][0] if e.get("params2") else None
                 out.append({"ev": "CftReaders", "t": t, "ok": 1 if e["res"] == "Ok" else 0, "op": e["op"],
-                            "param": rank[p] if field == "name" else int(p)})
+                            "param": rank[p] if field == "name" else int(p),
+                            "has2": 0 if p2 is None else 1, "param2": 0 if p2 is None else (rank[p2] if field == "name" else int(p2))})
             elif ev == "WriteF":
                 f = {"val": e["val"], "id": e["id"], "name": rank.get(e["name"], -1)}
                 out.append({"ev": "WriteF", "t": t, "seq": e["seq"], "ok": 1 if e["res"] == "Ok" else 0, "val": f["val"], "id": f["id"], "name": f["name"]})
